@@ -213,13 +213,12 @@ Qed.
 Example C16_nonvacuous :
   (* replica 0 (two entries) merges replica 2 (three heads) with bound 3: keeps the 3 newest of the 4 *)
   wf (firstn 9 ex_hist) /\
-  (exists l o, nth_error (s_logs ex_mid) 0 = Some l /\ nth_error (s_logs ex_mid) 2 = Some o /\
-     option_map (fun l' => (CheckLog.nsort (okeys (l_entries l')), CheckLog.nsort (okeys (l_heads l'))))
-                (Some (fst (join l o false 3))) = Some ([102; 201; 301]%N, [102; 201; 301]%N)).
-Proof.
-  split; [apply wfb_wf; vm_compute; reflexivity|]. do 2 eexists. split; [reflexivity|]. split; [reflexivity|].
-  vm_compute. reflexivity.
-Qed.
+  match nth_error (s_logs ex_mid) 0, nth_error (s_logs ex_mid) 2 with
+  | Some l, Some o => let l' := fst (join l o false 3) in
+                      Some (CheckLog.nsort (okeys (l_entries l')), CheckLog.nsort (okeys (l_heads l')))
+  | _, _ => None
+  end = Some ([102; 201; 301]%N, [102; 201; 301]%N).
+Proof. split; [apply wfb_wf; vm_compute; reflexivity|vm_compute; reflexivity]. Qed.
 
 Print Assumptions C16_join_never_panics.
 Print Assumptions C16_bounded_join_keeps_newest.
